@@ -129,6 +129,7 @@ def step_checks(ctx):
             st["evaluations_checked"] += len(idx)
             if any(i not in active for i in idx):
                 V("inactive-design-sampled", f"evaluated designs {idx}, active set {active}", si)
+                continue
             batch = rec["kw"].get("batch", 1)
             if algo in ("PaVeBa", "Auer"):
                 if sorted(idx) != active:
